@@ -2,4 +2,5 @@ import Hyeong.Props.C12
 #print axioms HyE.C12.incremental_eq_preloaded
 #print axioms HyE.C12.chunks_eq_whole
 #print axioms HyE.C12.repl_equiv
+#print axioms HyE.C12.repl_stop_equiv
 #print axioms HyE.C12.clear_resets
